@@ -339,6 +339,87 @@ def sec_compositions(chk):
                      nlp_s.subs(sub), Fx), "compositions")
 
 
+def sec_complex_models(chk):
+    """forward models with a complex-valued Jacobian (real -> complex and complex -> complex): the square-root factorisation needs the
+    *conjugate* transpose of the Jacobian"""
+    import jax
+    jax.config.update("jax_enable_x64", True)
+    import jax.numpy as jnp
+    import nifty.re as jft
+    from nifty.re import likelihood as lk
+    chk.under_contract(lk.LikelihoodWithModel.left_sqrt_metric)
+    chk.under_contract(lk.LikelihoodWithModel.right_sqrt_metric)
+    chk.under_contract(lk.LikelihoodWithModel.metric)
+    chk.under_contract(lk.LikelihoodWithModel.transformation)
+    nd, npar = 2, 2
+
+    def csym(shape, name):
+        re_, im_ = symbols(shape, name + "r", real=True), symbols(shape, name + "i", real=True)
+        out = np.empty(re_.shape, dtype=object)
+        for idx in np.ndindex(*re_.shape):
+            out[idx] = re_[idx] + sp.I * im_[idx]
+        return out, list(re_.ravel()) + list(im_.ravel())
+
+    def rdot(a, b):          # the real inner product of the real-ified spaces
+        return sp.re(sp.expand(sum(sp.conjugate(sp.sympify(x)) * sp.sympify(y) for x, y in zip(a, b))))
+    C, _ = csym((nd, npar), "C")
+    d, _ = csym((nd,), "d")
+    w = _pos((nd,), "w")
+    Cex = jnp.ones((nd, npar)) * (1. + 0.5j)
+    dex = jnp.ones(nd) * (0.3 - 0.2j)
+    wex = jnp.ones(nd)
+    cases = []
+    # real parameters -> complex data
+    x = _real((npar,), "x")
+    cases.append(("real parameters -> complex data: x -> C exp(x)", lambda q, C_: C_ @ jnp.exp(q), x, jnp.ones(npar) * 0.3, list(x), False))
+    # complex parameters -> complex data
+    z, zreal = csym((npar,), "z")
+    cases.append(("complex parameters -> complex data: z -> C (z * z)", lambda q, C_: C_ @ (q * q), z, jnp.ones(npar) * (0.4 + 0.7j), zreal, True))
+    for name, fwd, prim, pex, preal, cplx in cases:
+        lab = f"complex_models: Gaussian(complex data, std_inv w).amend({name})"
+
+        def make(d_, w_, C_):
+            g = jft.Gaussian(d_, noise_cov_inv=lambda v: w_ ** 2 * v, noise_std_inv=lambda v: w_ * v)
+            return g.amend(lambda q: fwd(q, C_), domain=jft.ShapeWithDtype((npar,), jnp.complex128 if cplx else jnp.float64))
+        if cplx:
+            t, treal = csym((npar,), "t")
+            t2, _ = csym((npar,), "u")
+        else:
+            t, t2 = _real((npar,), "t"), _real((npar,), "u")
+            treal = list(t)
+        sv, _ = csym((nd,), "s")
+        tex, sex = (jnp.ones(npar) * (1. + 1j) if cplx else jnp.ones(npar)), jnp.ones(nd) * (1. + 1j)
+        try:
+            M = _flat(sym_call(lambda d_, w_, C_, q, tt: make(d_, w_, C_).metric(q, tt), (dex, wex, Cex, pex, tex), (d, w, C, prim, t))[0])
+            R = _flat(sym_call(lambda d_, w_, C_, q, tt: make(d_, w_, C_).right_sqrt_metric(q, tt), (dex, wex, Cex, pex, tex), (d, w, C, prim, t))[0])
+            L = _flat(sym_call(lambda d_, w_, C_, q, ss: make(d_, w_, C_).left_sqrt_metric(q, ss), (dex, wex, Cex, pex, sex), (d, w, C, prim, sv))[0])
+            LR = _flat(sym_call(lambda d_, w_, C_, q, tt: make(d_, w_, C_).left_sqrt_metric(q, make(d_, w_, C_).right_sqrt_metric(q, tt)), (dex, wex, Cex, pex, tex), (d, w, C, prim, t))[0])
+            T = _flat(sym_call(lambda d_, w_, C_, q: make(d_, w_, C_).transformation(q), (dex, wex, Cex, pex), (d, w, C, prim))[0])
+        except Exception as e:  # noqa: BLE001
+            chk.obligation(f"{lab}: the likelihood is built and traced", "undecided", backend="engine", detail=f"{type(e).__name__}: {e}"[:400])
+            continue
+        tl, sl, t2l = list(t.ravel()), list(sv.ravel()), list(t2.ravel())
+        _all(chk, f"{lab}: <s, right_sqrt_metric t> == <left_sqrt_metric s, t> over the real-ified spaces (right == left^H)", [rdot(sl, R)], [rdot(L, tl)])
+        _all(chk, f"{lab}: metric == left_sqrt_metric applied after right_sqrt_metric", [sp.expand(m) for m in M], [sp.expand(e) for e in LR])
+        # directional derivatives of the transformation and of the forward model along t (real and imaginary parts are independent directions)
+        def directional(F, tv):
+            out = []
+            tre = [sp.re(sp.sympify(v)) for v in tv] + ([sp.im(sp.sympify(v)) for v in tv] if cplx else [])
+            for f in F:
+                f = sp.sympify(f)
+                out.append(sum(sp.diff(f, pr) * tr_ for pr, tr_ in zip(preal, tre)))
+            return out
+        JTt = directional(T, tl)
+        _all(chk, f"{lab}: left_sqrt_metric(p, s) is the pull-back of s through the transformation (<s, dT t> == <L s, t>)", [rdot(sl, JTt)], [rdot(L, tl)])
+        # Fisher information of the complex Gaussian: Re (J^H W^2 J)
+        prim_j = jnp.asarray(pex)
+        Fx = [sum(C[i, j] * (sp.exp(prim[j]) if not cplx else prim[j] * prim[j]) for j in range(npar)) for i in range(nd)]
+        JFt, JFu = directional(Fx, tl), directional(Fx, t2l)
+        want = rdot([w[i] * JFu[i] for i in range(nd)], [w[i] * JFt[i] for i in range(nd)])
+        Mu = _flat(sym_call(lambda d_, w_, C_, q, tt: make(d_, w_, C_).metric(q, tt), (dex, wex, Cex, pex, tex), (d, w, C, prim, t))[0])
+        _all(chk, f"{lab}: <u, metric t> == <W J u, W J t> (Fisher information Re J^H W^2 J)", [rdot(t2l, Mu)], [want])
+
+
 def sec_nd_native(chk):
     """bounded: NDVariableCovarianceGaussian uses sqrtm/logm/solve (outside Engine J): identities at generated points in float64"""
     import jax
@@ -395,4 +476,4 @@ def _native(which):
 REPLAY = {"Categorical(data, axis=-1) logits (2, 3): metric(p, t) == Fisher": _native("batch"),
           "metric == left_sqrt_metric applied after right_sqrt_metric": _native("lsm_shape")}
 
-SECTIONS = [sec_gaussian_family, sec_variable_covariance, sec_categorical, sec_compositions, sec_nd_native]
+SECTIONS = [sec_gaussian_family, sec_variable_covariance, sec_categorical, sec_compositions, sec_complex_models, sec_nd_native]
